@@ -366,7 +366,7 @@ def load_findings():
 # mechanical scan for assumptions
 # --------------------------------------------------------------------------------------------
 SCAN_PATTERNS = ["kani::assume", "assume(", "admit(", "external_body", "assume_specification", "kani::stub", "verifier::truncate",
-                 "external_fn_specification", "uninterp", "#[verifier::external"]
+                 "external_fn_specification", "uninterp", "#[verifier::external", "exec_allows_no_decreases_clause"]
 
 
 def scan_assumptions(files):
